@@ -443,19 +443,34 @@ def r2_audit(ctx: Ctx) -> None:
         if alias and alias.lower().startswith('expected_'):
             col = alias.lower()[len('expected_'):]
             inner = sr.unwrap_sum(c)
-            ctx.check(inner is not None and text(inner).lower().split('.')[-1] == col, 'R2', f'{cons0}::{alias}',
-                      f'{alias} sums `{text(inner) if inner is not None else text(c)}` instead of column {col}', m.path, e.lineno)
-    # the WHERE compares like-named pairs
+            ctx.need(inner is not None and inner.kind == 'col', f'check_incremental: {alias} is `{text(c)[:80]}`, not recognisably SUM(<column>)')
+            ctx.check(inner.parts[-1].lower().strip('`') == col, 'R2', f'{cons0}::{alias}',
+                      f'{alias} sums `{text(inner)}` instead of column {col}', m.path, e.lineno)
+    # the WHERE compares like-named pairs: `a != b`, `a <> b`, `NOT (a = b)`, `NOT (a <=> b)`, operands in either order, disjuncts in any order
     pairs = set()
+    unrecognised = []
     for d in sf.disjuncts(q.where):
-        if d.kind == 'bin' and d.op == '!=' and d.left.kind == 'col' and d.right.kind == 'col':
-            pairs.add((text(d.left).lower(), text(d.right).lower()))
+        x = d
+        neq = False
+        if x.kind == 'un' and x.op == 'NOT' and x.arg.kind == 'bin' and x.arg.op in ('=', '<=>'):
+            x, neq = x.arg, True
+        elif x.kind == 'bin' and x.op == '!=':
+            neq = True
+        if neq and x.left.kind == 'col' and x.right.kind == 'col':
+            pairs.add(frozenset((x.left.parts[-1].lower().strip('`'), x.right.parts[-1].lower().strip('`'))))
+        elif not (neq and (x.left.kind == 'lit' or x.right.kind == 'lit')):
+            unrecognised.append(d)
     for col in USER_COUNTERS:
-        ctx.check((f'actual_{col}', f'expected_{col}') in pairs or (f'expected_{col}', f'actual_{col}') in pairs, 'R2', f'{cons0}::compare {col}',
-                  f'audit does not compare actual_{col} with expected_{col}', m.path, e.lineno)
+        c_ = f'{cons0}::compare {col}'
+        if frozenset((f'actual_{col}', f'expected_{col}')) in pairs:
+            ctx.ok('R2', c_)
+        elif not unrecognised:
+            ctx.bad('R2', c_, f'audit does not compare actual_{col} with expected_{col}', m.path, e.lineno)
+        else:
+            raise AnalysisError(f'check_incremental: no disjunct compares actual_{col} with expected_{col}, but `{text(unrecognised[0])[:80]}` is not a recognised comparison')
     # the lateral lookup is the canonical ancestor walk
-    ctx.check(_is_canonical_walk(lat[0].select, 'job_groups'), 'R2', f'{cons0}::group-cancelled lookup',
-              f'audit\'s group-cancelled lookup is not the self-and-ancestors walk: {text(lat[0].select)[:200]}', m.path, e.lineno)
+    ctx.need(_is_canonical_walk(lat[0].select, 'job_groups'), f'check_incremental: the audit\'s group-cancelled lookup is not recognised as the self-and-ancestors walk: {text(lat[0].select)[:160]}')
+    ctx.ok('R2', f'{cons0}::group-cancelled lookup')
 
 
 def _is_canonical_walk(sel: N, subject_alias: str) -> bool:
@@ -496,8 +511,8 @@ def _flag_vars(a: N, fname: str, want_args: List[str]) -> Tuple[List[str], List[
     return ok, wrong
 
 
-def _not_cancelled(guard: Any, flags: List[str], fname: str, want_args: List[str]) -> bool:
-    for x, pol in cf.guard_literals(guard):
+def _not_cancelled(guard: Any, flags: List[str], fname: str, want_args: List[str], locals_: Optional[Dict[str, N]] = None) -> bool:
+    for x, pol in cf.guard_literals(guard, locals_):
         if pol:
             continue
         if sr.is_var(x) and x.parts[0].lower() in flags:
@@ -526,12 +541,39 @@ def r4_cancel(ctx: Ctx, prog: sf.SqlProgram) -> None:
         fname = 'IS_JOB_GROUP_CANCELLED' if group_level else 'IS_BATCH_CANCELLED'
         want_args = pnames[:2] if group_level else pnames[:1]
         flags, wrong = _flag_vars(a, fname, want_args)
+        # the same question asked without the function: the ancestor walk / the root lookup written out in a SELECT .. INTO
+        weak: List[str] = []
+        for v_, defs in cf.assigned_from(a.body).items():
+            sels = [st_ for _, st_ in defs if st_ is not None and st_.frm is not None]
+            if len(sels) != len(defs) or not sels:
+                continue
+            kinds = []
+            for st_ in sels:
+                w_ = sr.ancestor_walk(st_)
+                rl = sr.root_lookup(st_)
+                if w_ is not None and group_level and [text(w_['batch']).lower(), text(w_['group']).lower()] == want_args:
+                    kinds.append('walk')
+                elif rl is not None and rl['batch'] is not None and text(rl['batch']).lower() == pnames[0] and not group_level and rl['group'].kind == 'lit' and rl['group'].value == 0:
+                    kinds.append('walk')
+                elif rl is not None and rl['batch'] is not None and group_level and [text(rl['batch']).lower(), text(rl['group']).lower()] == want_args:
+                    kinds.append('own row only')
+                else:
+                    kinds.append('?')
+            if all(k == 'walk' for k in kinds):
+                flags.append(v_)
+            elif all(k == 'own row only' for k in kinds):
+                weak.append(v_)
         # the cancellation predicate is evaluated on the procedure's own arguments
         calls = [x for st in sf.all_statements(a.body) for x in st.walk() if x.kind == 'func' and x.name == fname]
         c_flag = f'{r.file}::{rname}::cur_cancelled'
+        weak_used = [v_ for v_ in weak if any(sr.is_var(x) and x.parts[0].lower() == v_ and not pol for st_, g_ in sf.guarded_statements(a.body) if sf.written_tables(st_)
+                                              for x, pol in cf.guard_literals(g_, cf.boolean_locals(a.body)))]
         if wrong or any([text(y).lower() for y in x.args] != want_args for x in calls):
             ctx.bad('R4', c_flag, f'the already-cancelled test is not computed from the cancellation predicate of the procedure\'s own arguments ({fname}({", ".join(want_args)}))', r.file, r.line)
-        elif calls:
+        elif weak_used and not flags:
+            ctx.bad('R4', c_flag, f'the already-cancelled test (`{weak_used[0]}`) only looks at the group\'s OWN row in job_groups_cancelled, not at its ancestors ({fname}): a group that is already cancelled '
+                    'through an ancestor passes the test, and cancelling it again moves its cancellable counts out of the live counters a second time', r.file, r.line)
+        elif calls or flags:
             ctx.ok('R4', c_flag)
         else:
             soft.append(f'{rname}: how the procedure finds out that the {"group" if group_level else "batch"} is already cancelled is not recognised ({fname} is not called)')
@@ -543,8 +585,8 @@ def r4_cancel(ctx: Ctx, prog: sf.SqlProgram) -> None:
             tbls = [t.lower() for t, _ in wt]
             gtxt = [('' if pol else 'NOT ') + text(c) for c, pol in guard]
             cons = f'{r.file}::{rname}::{st.kind} {tbls[0]}'
-            if tbls[0] in (USER_TBL, CANC_TBL, 'job_groups_cancelled') and calls and not wrong:
-                ctx.check(_not_cancelled(guard, flags, fname, want_args), 'R4', cons + '::guard', f'write is not guarded by NOT already-cancelled (path condition: {gtxt}); repeating the cancellation would move the counters again',
+            if tbls[0] in (USER_TBL, CANC_TBL, 'job_groups_cancelled') and (calls or flags) and not wrong:
+                ctx.check(_not_cancelled(guard, flags, fname, want_args, cf.boolean_locals(a.body)), 'R4', cons + '::guard', f'write is not guarded by NOT already-cancelled (path condition: {gtxt}); repeating the cancellation would move the counters again',
                           r.file, r.line_of(st))
             if st.kind == 'insert' and tbls[0] == USER_TBL:
                 found_user = True
@@ -601,6 +643,9 @@ def _check_on_dup(ctx: Ctx, cons: str, col: str, ins_e: N, dup: Dict[str, N], uv
             soft.append(f'{cons}: ON DUPLICATE KEY UPDATE `{text(d)[:80]}` is not of the form {col} + amount')
         return
     s2, x2 = inc
+    if x2.kind == 'values_fn' and x2.col.lower() != col:
+        ctx.bad('R3', c, f'ON DUPLICATE KEY UPDATE `{col} = {text(d)}` adds the value inserted into ANOTHER column ({x2.col}): an existing token row and a fresh one would receive different amounts', file, line)
+        return
     if x2.kind == 'values_fn' and x2.col.lower() == col:
         if s2 == 1:
             ctx.ok('R3', c)
@@ -831,7 +876,8 @@ def r7_commit(ctx: Ctx, prog: sf.SqlProgram) -> None:
     ctx.check(grp == ['inst_coll', 'user'], 'R7', cons + '::grouping', f'GROUP BY {grp}, expected (user, inst_coll)', r.file, line)
     # once: in the branch where the update was not yet committed and the staged job count matches - the locals are identified by what is read INTO them
     committed_vars, expected_vars, staged_vars = _commit_locals(a, prog)
-    lits = cf.guard_literals(guard)
+    blocals = cf.boolean_locals(a.body)
+    lits = cf.guard_literals(guard, blocals)
     gtxt = [(text(c), pol) for c, pol in lits]
 
     def not_committed(ls: Any) -> bool:
@@ -862,7 +908,7 @@ def r7_commit(ctx: Ctx, prog: sf.SqlProgram) -> None:
                     sets_committed.append((s_, g, v))
     if committed_vars:
         good = [x for x in sets_committed if x[2].kind == 'lit' and (x[2].value is True or x[2].value == 1) and not isinstance(x[2].value, str)]
-        if len(sets_committed) == 1 and len(good) == 1 and not_committed(cf.guard_literals(good[0][1])):
+        if len(sets_committed) == 1 and len(good) == 1 and not_committed(cf.guard_literals(good[0][1], blocals)):
             ctx.ok('R7', c2)
         elif len(sets_committed) != 1 or len(good) == 1:
             ctx.bad('R7', c2, 'batch_updates.committed is not set exactly once in the not-yet-committed branch', r.file, r.line)
@@ -1013,10 +1059,8 @@ def r5_create_jobs(ctx: Ctx) -> None:
                 ctx.bad('R5', f'{cons2}.{col}', f'column {col} is bound to the tally `{got[len("tally."):]}` (`{pf.nsrc(bind[id(ex)])}`), expected the tally {col!r} of the same item', path, e.lineno)
             else:
                 declines.append(f'_create_jobs: column {col} of the {table} insert is bound to `{_src(bind.get(id(ex))) if ex is not None else None}`, not recognisably a tally of the iterated item')
-            d = dup.get(col)
-            inc = sr.dup_increment(col, d, uvars) if d is not None else None
-            ok = inc is not None and inc[0] == 1 and inc[1].kind == 'values_fn' and inc[1].col.lower() == col
-            ctx.check(ok, 'R3', f'{cons2}.{col}::on-duplicate', f'ON DUPLICATE KEY UPDATE `{text(d)}` is not `{col} = {col} + VALUES({col})`', path, e.lineno)
+            if ex is not None:
+                _check_on_dup(ctx, f'{cons2}.{col}', col, ex, dup, uvars, path, e.lineno, declines)
         extra = [c for c in dup if c not in counters]
         ctx.check(not extra, 'R3', cons2 + '::one-sided', f'columns updated on duplicate key only: {extra}', path, e.lineno)
         # fan-out: ancestor walk keyed by (batch_id, the item's job group)
@@ -1104,7 +1148,7 @@ def _check_row_filter(ctx: Ctx, m: pf.Module, e: Any, rows: cs.Rows, V: str, cou
             return {pf.const_str(t.slice)}
         return None
 
-    arg = e.call.args[1] if len(e.call.args) > 1 else None
+    arg = c56.args_node(e.call)
     for (node, in_body) in sr.enclosing_ifs(m, e.call, stop=e.fn):
         ok_outer = in_body and isinstance(arg, ast.Name) and ((isinstance(node.test, ast.Name) and node.test.id == arg.id) or pf.nsrc(node.test) in (f'len({arg.id}) > 0', f'len({arg.id}) != 0', f'len({arg.id})'))
         ctx.need(ok_outer, f'_create_jobs: the counter insert is conditional on `{pf.nsrc(node.test)}`: not a recognised "nothing to insert" test')
@@ -1245,7 +1289,7 @@ def r6_closed_world(ctx: Ctx, prog: sf.SqlProgram) -> None:
         cons = f'{m.rel}::{fname}'
         ctx.need([t.lower() for t, _ in sf.written_tables(d)] == [table], f'{fname}: the delete does not target {table}')
         params = sr.params_in_order(d)
-        elts = sr.args_tuple(fn, de.call.args[1] if len(de.call.args) > 1 else None)
+        elts = sr.args_tuple(fn, c56.args_node(de.call))
         ctx.need(elts is not None and len(elts) == len(params), f'{fname}: cannot bind the arguments of the delete')
         assert elts is not None
         # the loop the delete runs in iterates the rows of the selector
@@ -1267,6 +1311,16 @@ def r6_closed_world(ctx: Ctx, prog: sf.SqlProgram) -> None:
                 for a, b in ((c.left, c.right), (c.right, c.left)):
                     if a.kind == 'col' and b.kind == 'param':
                         x = bind[id(b)]
+                        for _ in range(3):  # `key = (row['batch_id'], ..)` ... `key[0]`, or a plain alias
+                            if isinstance(x, ast.Subscript) and isinstance(x.value, ast.Name) and isinstance(x.slice, ast.Constant) and isinstance(x.slice.value, int):
+                                d_ = pf.single_def(fn, x.value.id)
+                                if isinstance(d_, ast.Tuple) and 0 <= x.slice.value < len(d_.elts):
+                                    x = d_.elts[x.slice.value]
+                                    continue
+                            if isinstance(x, ast.Name) and isinstance(pf.single_def(fn, x.id), ast.expr) and not isinstance(pf.single_def(fn, x.id), ast.Await):
+                                x = pf.single_def(fn, x.id)
+                                continue
+                            break
                         got[a.parts[-1].lower()] = pf.const_str(x.slice) if isinstance(x, ast.Subscript) and isinstance(x.value, ast.Name) and x.value.id == T else None
                         hit = True
                         break
@@ -1422,7 +1476,7 @@ def _bind(e: sf.Embedded, st: N) -> Optional[Dict[int, ast.AST]]:
     params = sr.params_in_order(st)
     if not params:
         return {}
-    elts = sr.args_tuple(e.fn, e.call.args[1]) if len(e.call.args) > 1 else None
+    elts = sr.args_tuple(e.fn, c56.args_node(e.call)) if c56.args_node(e.call) is not None else None
     if elts is None or len(elts) != len(params):
         return None
     return {id(p): x for p, x in zip(params, elts)}
@@ -1532,9 +1586,12 @@ def r10_cancel_sites(ctx: Ctx, prog: sf.SqlProgram, dirs: List[str]) -> None:
                             'from n_*_jobs to n_cancelled_*_jobs', r.file, r.line_of(st))
                     continue
                 ok = st.kind == 'insert' and st.select is None and st.cols is not None and len(st.rows) == 1
-                vals = {c.lower(): text(v).lower() for c, v in zip(st.cols, st.rows[0])} if ok else {}
-                want = {'id': 'in_batch_id', 'job_group_id': 'in_job_group_id' if name == 'cancel_job_group' else '0'}
-                ctx.check(ok and vals == want, 'R10', cons, f'the mark is written for {vals}, not for the group whose counters the procedure moved ({want})', r.file, r.line_of(st))
+                ctx.need(ok, f'{name}: the statement writing {MARK_TBL} is not a single-row INSERT .. VALUES: which group is marked is not recognised')
+                pn = [p[1].lower() for p in getattr(r.ast, 'params', [])]
+                ctx.need(len(pn) >= (2 if name == 'cancel_job_group' else 1), f'{name}: parameters {pn}')
+                vals = {c.lower().strip('`'): text(v).lower() for c, v in zip(st.cols, st.rows[0])}
+                want = {'id': pn[0], 'job_group_id': pn[1] if name == 'cancel_job_group' else '0'}
+                ctx.check(vals == want, 'R10', cons, f'the mark is written for {vals}, not for the group whose counters the procedure moved ({want})', r.file, r.line_of(st))
             if st.kind == 'call' and st.name.lower() in MARK_WRITERS:
                 sql_callers.append((name, r, st))
     for name, r, st in sql_callers:
@@ -1675,7 +1732,7 @@ def r11_commit_sites(ctx: Ctx, dirs: List[str]) -> None:
                 m2, call2 = m, call
                 if top is not None and any(top is x for x in m.tree.body):
                     try:
-                        mm, top2, _ = cs.prepared(m, top.name)
+                        mm, top2, _ = cs.prepared(m, top.name, exclude=(fn.name,))
                         c2 = cs.counterpart(mm, top2, call)
                         if c2 is not None:
                             m2, call2 = mm, c2
@@ -1685,7 +1742,7 @@ def r11_commit_sites(ctx: Ctx, dirs: List[str]) -> None:
     ctx.need(n >= 4, f'only {n} call sites of the commit wrapper found')
 
 
-def _refusal_in_creator(ctx: Ctx, m: pf.Module, creator: str) -> bool:
+def _refusal_in_creator(ctx: Ctx, m: pf.Module, creator: str) -> Optional[bool]:
     """Does `creator` refuse (raise) for a cancelled root group before it inserts a new batch_updates row?"""
     ctx.need(m.has_func(creator), f'{creator} not found')
     if any(isinstance(x, (ast.FunctionDef, ast.AsyncFunctionDef)) and x.name == creator for x in m.tree.body):
@@ -1702,9 +1759,10 @@ def _refusal_in_creator(ctx: Ctx, m: pf.Module, creator: str) -> bool:
                 g = pf.cfg(e.fn)
                 tgt = g.node_of(e.call)
                 if len(tgt) != 1:
-                    return False
-                return any(_root_cancel_refusal(m, e.fn, e2, tgt[0], None) == 'ok' for e2 in cs.embedded(m) if e2.fn is e.fn and e2 is not e)
-    return False
+                    return None
+                vs = [_root_cancel_refusal(m, e.fn, e2, tgt[0], None) for e2 in cs.embedded(m) if e2.fn is e.fn and e2 is not e]
+                return True if 'ok' in vs else (None if 'unclear' in vs else False)
+    return None
 
 
 def _root_cancel_refusal(m: pf.Module, fn: pf.FuncDef, e2: sf.Embedded, target: pf.Node, batch_src: Optional[str]) -> str:
@@ -1761,7 +1819,7 @@ def _root_cancel_refusal(m: pf.Module, fn: pf.FuncDef, e2: sf.Embedded, target: 
     return 'untested' if (tests or not mentioned) else 'unclear'
 
 
-_creator_ok: Dict[str, bool] = {}
+_creator_ok: Dict[str, Optional[bool]] = {}
 
 
 def _commit_site(ctx: Ctx, m: pf.Module, call: ast.Call, idx: int, wrapper: str) -> None:
@@ -1781,6 +1839,7 @@ def _commit_site(ctx: Ctx, m: pf.Module, call: ast.Call, idx: int, wrapper: str)
             if len(cn) == 1 and g.path_avoiding(g.entry, lambda n: n is target[0], lambda n: n is cn[0]) is None:
                 if name not in _creator_ok:
                     _creator_ok[name] = _refusal_in_creator(ctx, m, name)
+                ctx.need(_creator_ok[name] is not None, f'{m.rel}::{name}: whether it refuses a batch whose root group is cancelled before it opens an update is not recognised')
                 ctx.check(_creator_ok[name], 'R11', cons, f'{name} no longer refuses to open an update on a batch whose root group is cancelled; the update it opens is committed right here: '
                           'the staged Ready jobs of a cancelled batch are added to n_ready_jobs', m.path, call.lineno)
                 return
